@@ -336,7 +336,10 @@ fn in_text(loc: &Loc, text: &str) -> Result<(), String> {
         if line > lines.len() + 1 {
             return Err(format!("line {line} beyond the {} lines of {}", lines.len(), loc.file));
         }
-        let ext = if line <= lines.len() { line_extent(lines[line - 1]) } else { 1 };
+        // lines with bytes outside ASCII (the harness' own lossy rendering of non-UTF-8 input): how such characters advance
+        // the column is not part of what is judged here, so every such byte widens the allowance
+        let wide = if line <= lines.len() { lines[line - 1].iter().filter(|b| **b >= 0x80).count() } else { 0 };
+        let ext = if line <= lines.len() { line_extent(lines[line - 1]) + 2 * wide } else { 1 };
         // a location may cover the line terminator: the terminator's own column and one past it
         // are allowed (exclusive end positions), nothing further
         if col > ext + 2 {
